@@ -244,6 +244,12 @@ func init() {
 				}
 				cs := Case{Kind: "ref", Base: &b, Input: ref, Family: "resolution", Index: i}
 				o1 := c.cmpParse(d, defaultCfg, &b, ref, allFields, true, "ParseRef", i)
+				if i%8 == 3 {
+					// one reference against several bases and one base with several references, consecutively on one parser
+					b2, b3 := r.base(), r.base()
+					c.seqIndependent(func() url.Parser { return url.NewParser() }, defaultCfg.Desc,
+						[]seqStep{{&b, ref}, {&b2, ref}, {&b3, ref}, {&b, ref}, {&b, "#" + r.fragment()}, {&b, ""}, {&b2, "?" + r.query()}, {&b, ref}}, "call-sequences", i)
+				}
 				o2 := guard(func() Obs { return implObs(url.ParseRef(b, ref)) })
 				bo := implParse(p, nil, b)
 				var o3 Obs
